@@ -301,6 +301,11 @@ func (n *cnNet) electionInput(ctx context.Context, t mkvs.ImmutableKeyValueTree)
 			if ad := rt.ActiveDeployment(ep); ad != nil {
 				ver = int64(ad.Version.ToU64())
 			}
+			// the deployments as listed (TraceElection computes the version in force itself: greatest valid_from <= epoch)
+			deps := []map[string]any{}
+			for _, dp := range rt.Deployments {
+				deps = append(deps, map[string]any{"ver": int64(dp.Version.ToU64()), "from": int64(dp.ValidFrom)})
+			}
 			cons := map[string]any{}
 			for role, name := range map[scheduler.Role]string{scheduler.RoleWorker: "worker", scheduler.RoleBackupWorker: "backup"} {
 				c := rt.Constraints[scheduler.KindComputeExecutor][role]
@@ -314,7 +319,7 @@ func (n *cnNet) electionInput(ctx context.Context, t mkvs.ImmutableKeyValueTree)
 				cons[name] = map[string]any{"max": mx, "minp": mp, "vs": c.ValidatorSet != nil}
 			}
 			rtl = append(rtl, map[string]any{"id": n.runtimeName(rt.ID), "compute": rt.IsCompute(), "gs": int64(rt.Executor.GroupSize),
-				"bs": int64(rt.Executor.GroupBackupSize), "ver": ver, "tee": rt.TEEHardware != node.TEEHardwareInvalid, "cons": cons})
+				"bs": int64(rt.Executor.GroupBackupSize), "ver": ver, "deps": deps, "epoch": int64(ep), "tee": rt.TEEHardware != node.TEEHardwareInvalid, "cons": cons})
 		}
 		sort.Slice(rtl, func(i, j int) bool { return rtl[i]["id"].(string) < rtl[j]["id"].(string) })
 	}
